@@ -73,7 +73,11 @@ func init() {
 	harnessAPI["verifUint16"] = mkVar(types.Uint16)
 	harnessAPI["verifUint8"] = mkVar(types.Uint8)
 	harnessAPI["verifByte"] = mkVar(types.Uint8)
-	harnessAPI["verifBool"] = mkVar(types.Bool)
+	harnessAPI["verifBool"] = func(fr *frame, args []value) value {
+		v := fr.i.newVar(args[0].(string), types.Bool).(sv)
+		fr.i.doms[v.t] = &domain{vals: []uint64{0, 1}}
+		return v
+	}
 	harnessAPI["verifFloat64"] = mkVar(types.Float64)
 	harnessAPI["verifChoice"] = func(fr *frame, args []value) value {
 		// a finite choice in [0,n): symbolic int constrained to the range, so
@@ -82,6 +86,13 @@ func init() {
 		n := int(i.intArg(args[1]))
 		v := i.newVar(args[0].(string), types.Int).(sv)
 		p := i.pool
+		if n <= 64 {
+			d := &domain{}
+			for k := 0; k < n; k++ {
+				d.vals = append(d.vals, uint64(k))
+			}
+			i.doms[v.t] = d
+		}
 		c := p.And(p.BVCmp("bvsge", v.t, p.BV(0, SBV64)), p.BVCmp("bvslt", v.t, p.BV(uint64(n), SBV64)))
 		i.assume(c)
 		return v
@@ -195,6 +206,14 @@ func (i *interpreter) assume(c *Term) {
 		i.assertPC(c)
 		return
 	}
+	if ct, _, ok := i.domFeasible(c); ok {
+		i.fastDecisions++
+		if !ct {
+			panic(pathEnd{&PathResult{Kind: "dropped", Msg: "assumption unsatisfiable"}})
+		}
+		i.assertPC(c)
+		return
+	}
 	r := i.check(c, false)
 	if r == Unsat {
 		panic(pathEnd{&PathResult{Kind: "dropped", Msg: "assumption unsatisfiable"}})
@@ -219,7 +238,17 @@ func (i *interpreter) assert(fr *frame, cv value, label string) {
 			panic(pathEnd{res})
 		}
 	case sv:
-		r := i.check(c.t, true)
+		var r Result
+		if _, cf, ok := i.domFeasible(c.t); ok {
+			i.fastDecisions++
+			if cf {
+				r = Sat
+			} else {
+				r = Unsat
+			}
+		} else {
+			r = i.check(c.t, true)
+		}
 		for _, x := range i.extraSolvers {
 			// second opinion on assertion queries: replay pc on the other solver
 			x.Reset()
@@ -475,7 +504,7 @@ func (i *interpreter) callMethod(fr *frame, it iface, name string, args ...value
 			pkg = n.Obj().Pkg()
 		}
 	}
-	f := i.prog.LookupMethod(it.t, pkg, name)
+	f := i.findMethod(it.t, pkg, name)
 	if f == nil {
 		return nil, false
 	}
@@ -968,7 +997,7 @@ func (i *interpreter) callMethodSig(fr *frame, it iface, name string, okSig func
 	if _, isNative := it.v.(native); isNative {
 		return i.callMethod(fr, it, name, args...)
 	}
-	f := i.prog.LookupMethod(it.t, nil, name)
+	f := i.findMethod(it.t, nil, name)
 	if f == nil {
 		return nil, false
 	}
@@ -1058,7 +1087,7 @@ func (i *interpreter) toNativeArg(fr *frame, v value) any {
 			}
 			return fmt.Errorf("%s", i.errorString(fr, it))
 		}
-		if f := i.prog.LookupMethod(it.t, nil, "String"); f != nil && f.Signature.Params().Len() == 0 && f.Signature.Results().Len() == 1 {
+		if f := i.findMethod(it.t, nil, "String"); f != nil && f.Signature.Params().Len() == 0 && f.Signature.Results().Len() == 1 {
 			if p, ok := it.v.(*value); !ok || p != nil {
 				if r, ok := i.call(fr, token.NoPos, f, []value{it.v}).(string); ok {
 					return r
@@ -1160,4 +1189,13 @@ func (i *interpreter) fmtErrorf(fr *frame, format string, args []value) value {
 		cell := value(structure{msg, []value(wrapped)})
 		return iface{t: types.NewPointer(t), v: &cell}
 	}
+}
+
+// findMethod returns the implementation of method name on type t, or nil.
+func (i *interpreter) findMethod(t types.Type, pkg *types.Package, name string) *ssa.Function {
+	sel := i.prog.MethodSets.MethodSet(t).Lookup(pkg, name)
+	if sel == nil {
+		return nil
+	}
+	return i.prog.MethodValue(sel)
 }
